@@ -59,6 +59,16 @@ def cases(tier, seed=0):
             cs.append({'name': g['name'], 'spec': spec, 'linear': lin, 'semiring': 'log', 'method': 'linear', 'kmax': 10, 'tol': 1e-5, 'N': N})
             if lin:
                 cs.append({'name': g['name'], 'spec': spec, 'linear': lin, 'semiring': 'log', 'method': 'fixed-point', 'kmax': 1, 'tol': 1e-5, 'N': N})
+    # base-case / step factors given as PatternedTensors with a diagonal pattern: the sparsity pattern of the iterate changes between iterations
+    # (Bool: 4 domain values, so that paths of length 3 matter; Viterbi: 2 values -- max-plus terms over 16 cells are beyond the solver budget)
+    for kind, size in (('bool', 4), ('viterbi', 2)):
+      for g in recursive.patterned_family(size):
+        spec = g['spec']
+        N = ncells(spec)
+        for method in ('fixed-point', 'newton', 'linear'):
+            if True:
+                for kmax in (1, N + 1):
+                    cs.append({'name': g['name'], 'spec': spec, 'linear': True, 'semiring': kind, 'method': method, 'kmax': kmax, 'tol': 0, 'N': N, 'patterned': g['patterned']})
     return cs
 
 
@@ -88,6 +98,7 @@ def run_case(col, case, dt='float32'):
             [tuple('P' * nunk)] + [tuple(rng.choice('ZPPI') for _ in range(nunk)) for _ in range(30)]
     else:
         profiles = [tuple('P' * nunk)] + [tuple('Z' if i == j else 'P' for i in range(nunk)) for j in range(min(nunk, 3))]
+    B0 = B2(kind, dtype)
     for prof in profiles:
         V = symvals.Vars()
         flat = {}
@@ -95,6 +106,10 @@ def run_case(col, case, dt='float32'):
         for n in names:
             row = []
             for i in range(math.prod(shapes[n])):
+                if n in case.get('patterned', {}) and i // shapes[n][1] != i % shapes[n][1]:
+                    row.append(B0.pyzero)        # off the diagonal of a diagonal-patterned factor: the semiring zero (concrete)
+                    c += 1
+                    continue
                 if kind == 'viterbi':
                     e = V.elem(f'{n}_{i}', 'viterbi', 'T')
                     # non-positive log-weights (cycles of weight <= 0), no +inf
@@ -153,7 +168,7 @@ def run_case(col, case, dt='float32'):
 
         def make_replay(vals, name):
             return {'name': case['name'], 'spec': spec, 'semiring': kind, 'method': case['method'], 'kmax': case['kmax'], 'tol': case['tol'],
-                    'linear': case['linear'], 'N': case['N'], 'dtype': 'float64', 'values': TL.jsonable(vals),
+                    'linear': case['linear'], 'N': case['N'], 'dtype': 'float64', 'values': TL.jsonable(vals), 'patterned': case.get('patterned'),
                     'profile': ''.join(prof) if prof else None, 'claim': name}
         f = dict(feats)
         f['regime'] = 'T' if prof is None else 'S'
